@@ -21,6 +21,9 @@ def multiples():
         c01.T("T", ["A01"], "Q", ["C02"], [100]),
         c01.T("T", ["A01", "B02"], "Q", ["A01", "B01"], [150, 50]),
         c01.T("T", ["A02"], "T", ["A01"], [100], wash_scheme="reuse"),
+        # trough to trough with the columns in opposite order on the two sides (automatic partitioning)
+        c01.T("T", ["A01", "B02"], "T", ["C02", "A01"], [30, 7.5]),
+        c01.T("T", ["A02", "A01"], "T", ["B01", "B02"], [7.5, 30], wash_scheme="flush"),
     ]
 
 
